@@ -120,3 +120,85 @@ harness! {
         core::mem::forget(sub);
     }
 }
+
+// ---- through the store: subscribe_with_selector registers a subscriber whose FIRST
+// notification is delivered whatever the store's state was at subscription time ----------
+use super::script::{self, ScriptReducer, Store};
+use super::rt;
+use crate::StoreBuilder;
+
+fn selector_via_store(n: usize) {
+    rt::reset_all();
+    script::reset();
+    unsafe {
+        CB_N = 0;
+    }
+    let init: St = kani::any();
+    let store = StoreBuilder::new(init)
+        .with_reducer(Box::new(ScriptReducer { idx: 0 }))
+        .build()
+        .unwrap();
+    let tag: u8 = 0;
+    let sub = store.subscribe_with_selector(Low2, move |v: u8, a: Act| on_change(v.wrapping_add(tag), a));
+    // the registered subscriber object, as do_notify would call it
+    let registered = store.subscribers.lock().unwrap().clone();
+    chk!(16, registered.len() == 1, "subscribe_with_selector registers exactly one subscriber");
+    let mut exp_n: usize = 0;
+    let mut exp_val = [0u8; MAXN];
+    let mut exp_act = [0u8; MAXN];
+    let mut last: Option<u8> = None;
+    let mut first_equals_initial = false;
+    let mut i = 0;
+    while i < n {
+        let s: St = kani::any();
+        let a: Act = kani::any();
+        if registered.len() == 1 {
+            registered[0].on_notify(&s, &a);
+        }
+        let sel = s.val & 3;
+        if i == 0 && sel == (init.val & 3) {
+            first_equals_initial = true;
+        }
+        let fire = match last {
+            None => true,
+            Some(l) => l != sel,
+        };
+        if fire {
+            exp_val[exp_n] = sel;
+            exp_act[exp_n] = a;
+            exp_n += 1;
+            last = Some(sel);
+        }
+        i += 1;
+    }
+    let got = unsafe { CB_N };
+    chk!(16, got == exp_n, "via store: number of callbacks = length of de-duplicated stream (first always delivered)");
+    let mut k = 0;
+    while k < MAXN {
+        if k < exp_n && k < got {
+            unsafe {
+                chk!(16, CB_VAL[k] == exp_val[k], "via store: delivered value = selected value");
+                chk!(16, CB_ACT[k] == exp_act[k], "via store: delivered action = causing action");
+            }
+        }
+        k += 1;
+    }
+    kani::cover!(first_equals_initial, "COVER first notification selects the same value as the state at subscription time");
+    finish!(16);
+    core::mem::forget(registered);
+    core::mem::forget(sub);
+    core::mem::forget(store);
+}
+
+harness! {
+    #[kani::unwind(7)]
+    fn u_selector_store_n2() {
+        selector_via_store(2);
+    }
+}
+harness! {
+    #[kani::unwind(7)]
+    fn u_selector_store_n3() {
+        selector_via_store(3);
+    }
+}
